@@ -75,39 +75,37 @@ def _generate_model_code(
             )
         )
 
-    # Derived, in dependency order
+    # Derived and reactions, in dependency order
     all_derived = model.get_raw_derived()
-    sorted_names = [i for i in model._create_cache().order if i in all_derived]  # noqa: SLF001
-    for name in sorted_names:
-        derived = all_derived[name]
-        expr = custom_fns.get(name)
-        if expr is None:
-            expr = fn_to_sympy(
-                derived.fn,
-                origin=name,
-                model_args=list_of_symbols(derived.args),
-            )
-        if expr is None:
-            msg = f"Unable to parse fn for derived value '{name}'"
-            raise ValueError(msg)
-        source.append(assignment_template.format(k=name, v=sympy_inline_fn(expr)))
-
-    # Reactions
-    for name, rxn in model.get_raw_reactions().items():
-        expr = custom_fns.get(name)
-        if expr is None:
-            try:
+    all_reactions = model.get_raw_reactions()
+    for name in model._create_cache().order:  # noqa: SLF001
+        if (derived := all_derived.get(name)) is not None:
+            expr = custom_fns.get(name)
+            if expr is None:
                 expr = fn_to_sympy(
-                    rxn.fn,
+                    derived.fn,
                     origin=name,
-                    model_args=list_of_symbols(rxn.args),
+                    model_args=list_of_symbols(derived.args),
                 )
-            except KeyError:
-                _LOGGER.warning("Failed to parse %s", name)
-        if expr is None:
-            msg = f"Unable to parse fn for reaction value '{name}'"
-            raise ValueError(msg)
-        source.append(assignment_template.format(k=name, v=sympy_inline_fn(expr)))
+            if expr is None:
+                msg = f"Unable to parse fn for derived value '{name}'"
+                raise ValueError(msg)
+            source.append(assignment_template.format(k=name, v=sympy_inline_fn(expr)))
+        elif (rxn := all_reactions.get(name)) is not None:
+            expr = custom_fns.get(name)
+            if expr is None:
+                try:
+                    expr = fn_to_sympy(
+                        rxn.fn,
+                        origin=name,
+                        model_args=list_of_symbols(rxn.args),
+                    )
+                except KeyError:
+                    _LOGGER.warning("Failed to parse %s", name)
+            if expr is None:
+                msg = f"Unable to parse fn for reaction value '{name}'"
+                raise ValueError(msg)
+            source.append(assignment_template.format(k=name, v=sympy_inline_fn(expr)))
 
     # Diff eqs
     diff_eqs = {}
